@@ -566,6 +566,15 @@ def evalView (b : Obj) : ViewFn → Except Err ViewRes
     | .symm | .tri | .diag => .ok (.ctor { kind := b.kind, delta := 0, d0 := b.len, s0 := b.stride })
     | _ => .error .badOp           -- of an ACTIVE special matrix it does not compile (protected members of another class)
 
+/-- the object the view constructor builds from its source `b`.  The view constructor of `Array` canonicalises an empty
+    selection: if ANY extent is zero ALL extents are zero (as `resize` does), so that `empty()` — which looks at the first
+    extent only — is true and no loop over the elements is entered; only the rank-2 kind has a second extent. -/
+def viewObject (b : Obj) (v : ViewSpec) : Obj :=
+  let z : Bool := v.kind == .mat && (v.d0 == 0 || v.d1 == 0)
+  { kind := v.kind, region := b.region, off := b.off + v.delta.toNat, storage := b.storage,
+    len := if z then 0 else v.d0.toNat, stride := v.s0.toNat, len1 := if z then 0 else v.d1.toNat,
+    stride1 := v.s1.toNat }
+
 /-- the view constructor `Array(Type* data, Storage<Type>* s, dims, offset)` (SpecialMatrix: `(data, s, dim, offset)`):
     an `Array` rejects a negative extent FIRST, then `storage_->add_link()`; without a Storage an ACTIVE view has no
     gradient index and `assert_inactive()` throws invalid_operation (a slice of a soft link of an active array).
@@ -576,8 +585,7 @@ def viewCtor (s : St) (b : Obj) (v : ViewSpec) : Except Err St :=
   else if v.kind.active ∧ b.storage = none then .error .invalidOperation
   else if v.delta < 0 ∨ v.d0 < 0 ∨ v.s0 < 0 ∨ v.d1 < 0 ∨ v.s1 < 0 then .error .badOp
   else
-    let o : Obj := { kind := v.kind, region := b.region, off := b.off + v.delta.toNat, storage := b.storage,
-                     len := v.d0.toNat, stride := v.s0.toNat, len1 := v.d1.toNat, stride1 := v.s1.toNat }
+    let o : Obj := viewObject b v
     if v.delta.toNat + extentOf o ≤ extentOf b then linkNew s o else .error .badOp
 
 /-- `b.f(...)` held in a new object (appended) -/
